@@ -427,7 +427,14 @@ def _make_fields_iterator(
     # If that didn't work, look for `__slots__`.
     if not declared and hasattr(tp, "__slots__"):
         declared = True
-        public_attribs = [s for s in tp.__slots__ if not s.startswith("_")]
+        # NB: `__slots__` only names the slots added by a class itself,
+        #   the inherited ones are declared by its bases.
+        public_attribs = []
+        for base in reversed(tp.__mro__):
+            slots = base.__dict__.get("__slots__", ())
+            for s in (slots,) if isinstance(slots, str) else slots:
+                if not s.startswith("_") and s not in public_attribs:
+                    public_attribs.append(s)
     # If we located the declared attributes, create a factory function for iterating over
     #   the public fields and fetching the value from an instance.
     if declared:
